@@ -145,7 +145,7 @@ Definition tyv_from (t : tyv) (i : Z) : result (list Z) :=
 Definition get_key (k : string) (l : list (string * tyv)) : result tyv :=
   match assoc k l with Some v => Ok v | None => Err KeyError end.
 
-Definition np_int (z : Z) : pval := VNp "int64" 0 (Some z).
+Definition np_int (z : Z) : pval := VNp "int64" (-1) (Some z).
 
 (* recompute an undefined output type of the target node.  Python mutates the node in place,
    so what was assigned before an exception stays assigned: the result is the fields and the
